@@ -15,7 +15,8 @@ EXPLANATION = (
     "written inside the loop and not on the last; (e) send_to for DNS data is called only by multicast_on_intf / "
     "unicast_on_intf behind the `len > MAX_MSG_ABSOLUTE ⇒ return` guard; (f) fullname derives from "
     "escape_instance_name(my_name)."
-    " The rollback is exact: data is truncated at the snapshot and a compression entry survives iff its offset is strictly below it.")
+    " The rollback is exact: data is truncated at the snapshot and a compression entry survives iff its offset is strictly below it."
+    " (g) The compression table is keyed by the exact label suffix that is written: no case folding between labels[i..].join(\".\") and names.get / names.insert.")
 UNDECIDED = ["value round trip: decoded names/RDATA equal what was added (escaping, compression pointers pointing at the right bytes)",
              "non-injective compression key for labels containing '.' (a\\.b vs a.b)",
              "answers/authorities that do not fit are dropped while later smaller records still enter the packet",
@@ -470,6 +471,8 @@ def clause_f(ctx, P):
 
 
 def run(ctx, P):
+    from . import r2
+    r2.compression_key_is_exact(ctx, P, "C02g")
     clause_a(ctx, P)
     clause_b(ctx, P)
     clause_cd(ctx, P)
